@@ -173,6 +173,38 @@ func checkC07(rc *RunCtx, sc *C1, out *C1Outcome) {
 	if sc.LongSilence {
 		rc.Probe("long_silence_inside_timeout")
 	}
+	// what the transport was asked to do to the reply, and whether the client actually met it
+	nData, nEmpty, nDataErr, planErr := 0, 0, 0, false
+	for _, r := range out.Rec {
+		if r.Kind == "read" {
+			if r.N > 0 {
+				nData++
+				if r.Err != nil {
+					nDataErr++
+				}
+			} else if r.Err != nil {
+				nEmpty++
+			}
+		}
+	}
+	for _, c := range sc.Chunks {
+		planErr = planErr || c.Err != nil
+	}
+	if len(sc.Chunks) >= 2 {
+		rc.Fault("reply_split_across_reads", nData >= 2)
+	}
+	if hasLong {
+		rc.Fault("empty_timed_out_reads_between_chunks", nEmpty > 0)
+	}
+	if planErr {
+		rc.Fault("data_with_tolerated_error", nDataErr > 0)
+	}
+	if sc.LongSilence {
+		rc.Fault("silence_close_to_the_read_timeout", nEmpty > 0)
+	}
+	if sc.Then != nil {
+		rc.Fault("further_call_on_same_client", len(out.Next) > 0)
+	}
 	if out.Panic != nil {
 		rc.Violate("panic", base, "panic in %s: %s", out.Panic.Task, out.Panic.Value)
 		return
